@@ -30,10 +30,7 @@ func topicMessageNamedAfterMethod(r *core.Run) {
 		return
 	}
 	wantSuffix, found := "", false
-	core.AllFuncDecls(spk, func(fd *ast.FuncDecl) {
-		if fd.Body == nil || fd.Name.Name != "buildTopicMethod" {
-			return
-		}
+	if fd, _ := r.P.FuncDecl(structureRel, "buildTopicMethod"); fd != nil && fd.Body != nil {
 		ast.Inspect(fd.Body, func(n ast.Node) bool {
 			be, ok := n.(*ast.BinaryExpr)
 			if !ok || be.Op != token.ADD {
@@ -50,7 +47,7 @@ func topicMessageNamedAfterMethod(r *core.Run) {
 			}
 			return true
 		})
-	})
+	}
 	if !found {
 		r.Fatal("R-CONST/topicmsg: %s.buildTopicMethod no longer derives the expected input name as method.Name()+<literal>; re-read the consumer and adapt the rule", structureRel)
 		return
